@@ -104,6 +104,14 @@ type guardW struct {
 	eff  *effects.Info
 	memo map[*ssa.Function]int // 0 unknown, 1 in progress, 2 yes, 3 no
 	bad  map[*ssa.Function][]guardSite
+	// okAt decides whether the facts at an effect establish "no error yet"
+	// (default: the sticky field "err" of the receiver is known nil).
+	okAt func(fn *ssa.Function, facts ssau.FactSet) bool
+}
+
+func stickyNil(fn *ssa.Function, facts ssau.FactSet) bool {
+	ep := errPathOf(fn, "err")
+	return ep != "" && facts.Has("nil", ep, "")
 }
 
 type guardSite struct {
@@ -163,11 +171,14 @@ func (g *guardW) effects(fn *ssa.Function) []guardSite {
 }
 
 func (g *guardW) check(fn *ssa.Function) []guardSite {
-	ep := errPathOf(fn, "err")
 	ff := ssau.ComputeFacts(fn, nil)
+	okAt := g.okAt
+	if okAt == nil {
+		okAt = stickyNil
+	}
 	var bad []guardSite
 	for _, s := range g.effects(fn) {
-		if ep != "" && ff.At(s.instr).Has("nil", ep, "") {
+		if okAt(fn, ff.At(s.instr)) {
 			continue
 		}
 		if ci, ok := s.instr.(ssa.CallInstruction); ok && sameReceiver(fn, ci.Common()) {
